@@ -1517,10 +1517,7 @@ namespace bluetoe {
                 {
                     this->free_write_queue( client );
 
-                    if ( rc == details::attribute_access_result::invalid_attribute_value_length )
-                        return error_response( *input, details::att_error_codes::invalid_attribute_value_length, handle, output, out_size );
-
-                    return error_response( *input, details::att_error_codes::invalid_offset, handle, output, out_size );
+                    return error_response( *input, access_result_to_att_code( rc, details::att_error_codes::invalid_offset ), handle, output, out_size );
                 }
             }
         }
